@@ -1,19 +1,17 @@
 package dnsmsg
 
 import (
-	"sync"
-
 	"github.com/IrineSistiana/mosproxy/internal/pool"
 )
 
 var (
-	poolA    = sync.Pool{New: func() any { return new(A) }}
-	poolAAAA = sync.Pool{New: func() any { return new(AAAA) }}
-	poolMX   = sync.Pool{New: func() any { return new(MX) }}
-	poolNAME = sync.Pool{New: func() any { return new(NAMEResource) }}
-	poolSOA  = sync.Pool{New: func() any { return new(SOA) }}
-	poolSRV  = sync.Pool{New: func() any { return new(SRV) }}
-	poolRaw  = sync.Pool{New: func() any { return new(RawResource) }}
+	poolA    = pool.ObjPool{New: func() any { return new(A) }}
+	poolAAAA = pool.ObjPool{New: func() any { return new(AAAA) }}
+	poolMX   = pool.ObjPool{New: func() any { return new(MX) }}
+	poolNAME = pool.ObjPool{New: func() any { return new(NAMEResource) }}
+	poolSOA  = pool.ObjPool{New: func() any { return new(SOA) }}
+	poolSRV  = pool.ObjPool{New: func() any { return new(SRV) }}
+	poolRaw  = pool.ObjPool{New: func() any { return new(RawResource) }}
 )
 
 func NewA() *A               { return poolA.Get().(*A) }
